@@ -270,6 +270,30 @@ def check(prog, rep, tier):
                 found='; '.join(probs), key='rib-update-gate')
     else:
         rep.ok('R19.c', 'rib-update-gate', file=ur.file, line=calls[0].lineno)
+    # the REST layer forwards every sent update to the version bookkeeping unconditionally
+    uf = prog.func('yabgp.api.utils.update_send_version')
+    body = [b for b in uf.node.body if not (isinstance(b, ast.Expr) and isinstance(b.value, ast.Constant))]
+    okf = len(body) == 1 and isinstance(body[0], ast.Expr) and isinstance(body[0].value, ast.Call) and \
+        src_of(body[0].value.func).endswith('.fsm.protocol.update_send_version') and \
+        [src_of(a) for a in body[0].value.args] == uf.params
+    if okf:
+        rep.ok('R19.c', 'rest-forwards-version-update', file=uf.file, line=uf.node.lineno)
+    else:
+        rep.bad('R19.c', 'rest-forwards-version-update', file=uf.file, line=uf.node.lineno, func=uf.qualname,
+                found='api.utils.update_send_version does not forward every sent update unchanged to '
+                      'protocol.update_send_version (conditional / early return / changed arguments)',
+                expected='a single unconditional forwarding call', key='rest-forwards-version-update')
+    vf = prog.module('yabgp.api.v1').functions.get('send_update_message')
+    sends = [n for n in ast.walk(vf.node) if isinstance(n, ast.Call) and src_of(n.func) == 'api_utils.send_update']
+    vers = [n for n in ast.walk(vf.node) if isinstance(n, ast.Call) and src_of(n.func) == 'api_utils.update_send_version']
+    paired = len(sends) == len(vers) and all(
+        any(v.lineno < s_.lineno and s_.lineno - v.lineno <= 2 for v in vers) for s_ in sends)
+    if sends and paired:
+        rep.ok('R19.c', 'view-updates-version', file=vf.file, line=vf.node.lineno)
+    else:
+        rep.bad('R19.c', 'view-updates-version', file=vf.file, line=vf.node.lineno, func=vf.qualname,
+                found='%d send_update call(s) but %d update_send_version call(s) next to them' % (len(sends), len(vers)),
+                key='view-updates-version')
     for attr in ('adj_rib_in', 'adj_rib_out', 'receive_version', 'send_version'):
         n = 0
         for fn in prog.all_functions():
